@@ -372,7 +372,9 @@ def keplernum_case(kind, K):
 
     def pre(v):
         p = c03.eop_pre(v) + [v["d"] >= 41317, v["d"] <= 58000, v["s"] >= 0, v["s"] < 86400, 2 * v["step"] >= v["h"]]
-        if kind == "fwd_long":
+        if kind == "dates_list":
+            p += [v["span"] == 3 * v["step"], 3 * v["step"] >= 2 * v["h"], 3 * v["step"] < K * v["h"]]
+        elif kind == "fwd_long":
             p += [v["span"] >= 2 * v["h"], v["span"] < K * v["h"], v["span"] < K * v["step"]]
         elif kind == "fwd_short":
             p += [v["span"] > 0, v["span"] < v["h"], v["span"] < K * v["step"]]
@@ -421,13 +423,18 @@ def keplernum_case(kind, K):
                     out = {}
                     n = 0
                     try:
-                        for k, o in enumerate(prop.iter(start=epoch, stop=stop, step=td(v["step"]))):
+                        if kind == "dates_list":
+                            # an explicit list of dates (plain Python list): start + k*step, 4 points
+                            gen = prop.iter(dates=[epoch + td(v["step"] * k) for k in range(4)])
+                        else:
+                            gen = prop.iter(start=epoch, stop=stop, step=td(v["step"]))
+                        for k, o in enumerate(gen):
                             out[f"t{k}"] = tsec(env, o.date, epoch)
                             n += 1
                             if k > 3 * K + 6:
                                 raise AssertionError("unwinding bound exceeded")
                         out["raised"] = 0
-                    except ValueError:
+                    except (ValueError, AttributeError):
                         out["raised"] = 1
                     out["count"] = n
                     return out
@@ -437,16 +444,21 @@ def keplernum_case(kind, K):
             from beyond.orbits import Orbit
             from beyond.env.solarsystem import get_body
             epoch = c03.mk_date(env, m, 58000, 0.0, "UTC")
-            h, span, step = {"fwd_long": (60.0, 1000.0, 510.0), "fwd_short": (60.0, 100.0, 55.0), "bwd": (60.0, -1000.0, 55.0)}[kind]
+            h, span, step = {"fwd_long": (60.0, 1000.0, 510.0), "fwd_short": (60.0, 100.0, 55.0), "bwd": (60.0, -1000.0, 55.0),
+                             "dates_list": (60.0, 1650.0, 550.0)}[kind]
             orb = Orbit([7e6, 0, 0, 0, 7.5e3, 0], epoch, "cartesian", "EME2000", KeplerNum(_td(seconds=h), get_body("Earth")))
             out = {}
             n = 0
             try:
-                for k, o in enumerate(orb.iter(start=epoch, stop=epoch + _td(seconds=span), step=_td(seconds=step))):
+                if kind == "dates_list":
+                    gen = orb.iter(dates=[epoch + _td(seconds=step * k) for k in range(4)])
+                else:
+                    gen = orb.iter(start=epoch, stop=epoch + _td(seconds=span), step=_td(seconds=step))
+                for k, o in enumerate(gen):
                     out[f"t{k}"] = (o.date - epoch).total_seconds()
                     n += 1
                 out["raised"] = 0
-            except ValueError:
+            except (ValueError, AttributeError):
                 out["raised"] = 1
             out["count"] = n
             out["_conc"] = [span, step]
@@ -472,7 +484,7 @@ def keplernum_case(kind, K):
             r[f"t{k}"] = direction * k * step
         return r
     what = {"fwd_long": "a point beyond stop is yielded", "fwd_short": "span shorter than the interpolation order raises ValueError",
-            "bwd": "backward range raises ValueError"}[kind]
+            "bwd": "backward range raises ValueError", "dates_list": "dates given as a plain list raise AttributeError"}[kind]
     return Case(f"keplernum/{kind}", ins, run, ref, pre=pre, timeout=90, maxpaths=1500, tol=1e-9, abs_tol=3e-6,
                 signature=f"KeplerNum._iter: {what}",
                 desc=f"KeplerNum iteration skeleton ({kind}) from the epoch: yields start + k*step first to last inclusive, nothing beyond "
@@ -533,15 +545,69 @@ def numiter_args_case(stop_kind):
                      "start + stop (a timedelta stop counts from start), step sign fixed up for backward ranges; start=None is the epoch")
 
 
+def ephem_interleaved_case():
+    """two iterations of the same Ephem consumed alternately (two `ephem.iter()` generators alive at once, native step): each
+    yields every point of the table, in order -- iterations on the same object do not disturb each other"""
+    ins = INS + [("g1", "pos"), ("g2", "pos")]
+
+    def pre(v):
+        return c03.eop_pre(v) + [v["d"] >= 41317, v["d"] <= 58000, v["s"] >= 0, v["s"] < 86400]
+
+    def run(env, v):
+        m = c03.datemod(env)
+        c03.install_eop(env, m, v)
+        try:
+            eph = env.mod("beyond.orbits.ephem") if env.symbolic else importlib.import_module("beyond.orbits.ephem")
+            t0 = c03.mk_date(env, m, v["d"], v["s"], "UTC")
+            td = (lambda x: STD.of(x)) if env.symbolic else (lambda x: _td(seconds=float(x)))
+            pts = [Rec(t0), Rec(t0 + td(v["g1"])), Rec(t0 + td(v["g1"] + v["g2"]))]
+            if env.symbolic:
+                e = eph.Ephem.__new__(eph.Ephem)
+                e._orbits = pts
+                e._method, e._order = "linear", 2
+            else:
+                from beyond.orbits import StateVector
+                pts = [StateVector([7e6 + k, 0, 0, 0, 7.5e3, 0], p.date, "cartesian", "EME2000") for k, p in enumerate(pts)]
+                e = eph.Ephem(pts, method="linear")
+            ga, gb = e.iter(), e.iter()
+            seq = {"a": [], "b": []}
+            for which in "abababab":
+                g = ga if which == "a" else gb
+                try:
+                    seq[which].append(tsec(env, next(g).date, t0))
+                except StopIteration:
+                    pass
+            out = {"count_a": len(seq["a"]), "count_b": len(seq["b"])}
+            for w in "ab":
+                for k in range(3):
+                    out[f"{w}{k}"] = seq[w][k] if k < len(seq[w]) else -1
+            return out
+        finally:
+            if not env.symbolic:
+                c03.restore_eop()
+
+    def ref(env, v, out):
+        ts = [0, v["g1"], v["g1"] + v["g2"]]
+        r = {"count_a": 3, "count_b": 3}
+        for w in "ab":
+            for k in range(3):
+                r[f"{w}{k}"] = ts[k]
+        return r
+    return Case("ephem/interleaved", ins, run, ref, pre=pre, timeout=60, tol=1e-9, abs_tol=3e-6,
+                signature="Ephem.iter: two live iterations share one cursor",
+                desc="two Ephem.iter() generators on one ephemeris, advanced alternately, each yield the three points in order")
+
+
 def all_cases(tier):
     K = bounds(tier)["max_points"]
     cs = []
     for sign in (1, -1):
         for sk in ("date", "timedelta"):
             cs.append(analytical_case(sign, sk, K))
-    cs += [dates_case(), ephem_case("step", K), ephem_case("nostep", K), ephem_case("dates", K), ephem_strict_case(), ephem_bwd_case(K),
+    cs += [dates_case(), ephem_case("step", K), ephem_case("nostep", K), ephem_case("dates", K), ephem_strict_case(), ephem_bwd_case(K), ephem_interleaved_case(),
            keplernum_case("fwd_long", bounds(tier)["keplernum_steps"]), keplernum_case("fwd_short", bounds(tier)["keplernum_steps"]),
-           keplernum_case("bwd", bounds(tier)["keplernum_steps"]), numiter_args_case("timedelta"), numiter_args_case("date")]
+           keplernum_case("bwd", bounds(tier)["keplernum_steps"]), keplernum_case("dates_list", bounds(tier)["keplernum_steps"]),
+           numiter_args_case("timedelta"), numiter_args_case("date")]
     return cs
 
 
